@@ -321,9 +321,14 @@ impl Prop for C16 {
         // ---------------- (b) paging histories
         let npages = 1 + t.draw(CFG, 6) as usize;
         let mut counter = 0u32;
+        // one history in five is made of addresses full of zero bytes (0.0.0.0 with a port, x.0.0.0, ports
+        // whose low or high byte is 0): six zero bytes in a row then occur across entry boundaries without
+        // any entry being the 0.0.0.0:0 terminator
+        let zero_rich = t.draw(CFG, 5) == 0;
         let mut pages: Vec<Vec<(Ipv4Addr, u16)>> = Vec::new();
         for _ in 0 .. npages {
             let n = match t.draw(DATA, 6) {
+                _ if zero_rich => t.draw(DATA, 40),
                 0 => 0,
                 1 => 230,
                 2 => 1,
@@ -334,6 +339,17 @@ impl Prop for C16 {
                 counter += 1;
                 // unique addresses, never 0.0.0.0:0
                 // several servers per host: consecutive entries often share the IP and differ in the port
+                if zero_rich {
+                    // unique by construction (counter < 256 in this mode)
+                    let c = counter as u8;
+                    p.push(match counter % 4 {
+                        0 => (Ipv4Addr::new(10, c, 0, 0), u16::from(c) << 8), // ends in three zero bytes
+                        1 => (Ipv4Addr::new(0, 0, 0, 0), u16::from(c)),       // starts with five zero bytes
+                        2 => (Ipv4Addr::new(0, 0, 0, c), 256),
+                        _ => (Ipv4Addr::new(c, 0, 0, 0), 80),
+                    });
+                    continue;
+                }
                 p.push((Ipv4Addr::from(0x0a00_0000 + counter / 3), 27000 + (counter % 3) as u16 + (counter % 7 == 0) as u16 * 100));
             }
             pages.push(p);
